@@ -88,6 +88,22 @@ def spellings():
     for w in (8, 16, 32, 64):
         out.append(dict(name=f"store;u{w}", text=f"{{ mem_store_u{w}(RsV + siV, RttV); }}", expect=[("store", w)]))
         out.append(dict(name=f"store2;u{w}", text=f"{{ EA = RsV + (uiV << 2); mem_store_u{w}(EA, RtV); mem_store_u{w}(EA + 8, 0x1234567890LL); }}", expect=[("store", w)]))
+    # width monitor: sizeof(operand) and use as 64-bit arithmetic operand, address and store data, for every readable spelling
+    extra = []
+    for it in out:
+        if it["name"].startswith("read;"):
+            tok = it["name"].split(";", 1)[1]
+            tokc = ("HEX_REG_ALIAS_" + tok.split(";")[1]) if tok.startswith("alias;") else tok
+            slot = tokc[1] if re.match(r"[RCMPN][a-z]", tokc) else ""
+            dst = "RddV" if slot != "d" else "RyyV"
+            src = "RssV" if slot != "s" else "RttV"
+            dst32 = "ReV" if slot != "e" else "RxV"
+            extra.append(dict(name=f"width;{tok}", text=f"{{ {dst32} = sizeof({tokc}) + sizeof({tokc} + 1); }}", expect=[]))
+            extra.append(dict(name=f"arith;{tok}", text=f"{{ {dst} = {tokc} + {src}; }}", expect=[]))
+            if not tokc.startswith("P"):
+                extra.append(dict(name=f"addr;{tok}", text=f"{{ mem_store_u16({tokc}, {src}); {dst} = (int64_t) mem_load_s8({tokc}); }}", expect=[]))
+            extra.append(dict(name=f"data;{tok}", text=f"{{ mem_store_u64({'RsV' if slot != 's' else 'RtV'}, {tokc}); }}", expect=[]))
+    out.extend(extra)
     out.append(dict(name="jump;32", text="{ JUMP(RsV); }", expect=[("jump",)]))
     out.append(dict(name="jump;64", text="{ JUMP(RssV + 4); }", expect=[("jump",)]))
     out.append(dict(name="jump;cond", text="{ if (PuV & 1) { JUMP(HEX_REG_ALIAS_PC + riV); } }", expect=[("jump",)]))
